@@ -169,3 +169,63 @@ pub fn stmtcase(c: &J) -> J {
     });
     json!({"id": c["id"], "stmt": c["stmt"], "obs": built})
 }
+
+/// C15: two registers of SelectStatement. {"id","calls":[call...], "refs": {step: [calls]}}; a call may carry
+/// "reg": 2 to address the second register; special ops: take (s2 = s1.take()), clone (s2 = s1.clone()).
+pub fn histcase(c: &J) -> J {
+    let calls = c["calls"].as_array().unwrap();
+    let mut s1 = Query::select();
+    let mut s2 = Query::select();
+    let mut steps: Vec<J> = vec![];
+    let r = guarded(|| {
+        for (i, call) in calls.iter().enumerate() {
+            let op = call["op"].as_str().unwrap();
+            let snap1 = s1.clone();
+            let snap2 = s2.clone();
+            let mut o = json!({"step": i + 1, "op": op});
+            match op {
+                "take" => {
+                    let pre = s1.clone();
+                    let pre_r = inline_only(&pre);
+                    let taken = s1.take();
+                    o["taken_eq_pre"] = json!(taken == pre);
+                    o["left_eq_new"] = json!(s1 == SelectStatement::new());
+                    o["render_pre"] = pre_r;
+                    o["render_taken"] = inline_only(&taken);
+                    s2 = taken;
+                }
+                "clone" => {
+                    s2 = s1.clone();
+                    o["clone_eq"] = json!(s2 == s1);
+                }
+                _ => {
+                    if call["reg"].as_u64() == Some(2) {
+                        stmt::apply_select(&mut s2, call);
+                        o["other_unchanged"] = json!(s1 == snap1);
+                    } else {
+                        stmt::apply_select(&mut s1, call);
+                        o["other_unchanged"] = json!(s2 == snap2);
+                    }
+                }
+            }
+            o["r1"] = inline_only(&s1);
+            o["r2"] = inline_only(&s2);
+            o["eq12"] = json!(s1 == s2);
+            if let Some(refcalls) = c["refs"].get((i + 1).to_string()) {
+                let mut rs = Query::select();
+                for rc in refcalls.as_array().unwrap() {
+                    stmt::apply_select(&mut rs, rc);
+                }
+                o["ref"] = inline_only(&rs);
+                o["ref_eq"] = json!(rs == s1);
+            }
+            steps.push(o);
+        }
+        J::Null
+    });
+    let mut out = json!({"id": c["id"], "calls": c["calls"], "refs": c["refs"], "steps": steps});
+    if r.get("panic").is_some() {
+        out["panic"] = r;
+    }
+    out
+}
